@@ -1,7 +1,9 @@
 """C09 — packet framing round-trips under any read fragmentation (common/encapsulation)."""
+import os
 import vlib
 
 AREA = "encap"
+PC_ARGS = ("-test.run", "^TestC09VerifDriver$")
 BOUND = [0, 1, 2, 62, 63, 64, 65, 127, 128, 8190, 8191, 8192, 8193, 16383, 16384]
 BIG = [1048573, 1048574, 1048575]
 
@@ -99,6 +101,32 @@ def prop(line, impl, model):
         want = "chunks=" + (",".join("x" + d for d in datas) or "-") + " err=eof"
         if impl != want:
             return "round trip failed: chunks written are not the chunks read back (reader script %s)" % a[3]
+    elif op in ("alloc", "allocd"):
+        if " over=" in impl and not impl.endswith(" over=0"):
+            return ("ReadData allocated more than the chunk it announced (+64 KiB): %s" % impl[impl.index(" over="):][:80])
+        if op == "alloc" and impl != "E:toolong":
+            datas = [expand(it[1:]) for it in a[2].split(",") if it[0] == "d"] if a[2] != "-" else []
+            want = "chunks=" + (",".join("x" + d for d in datas) or "-") + " err=eof over=0"
+            if impl != want:
+                return "round trip failed: chunks written are not the chunks read back (reader script %s)" % a[3]
+    elif op == "pc":
+        if impl == "E:toolong":
+            return None if model == impl else "a packet below 2^20 bytes was refused by the packet conn"
+        if impl.startswith("!"):
+            return "packet conn misbehaved: " + impl[:100]
+        datas = [expand(it[1:]) for it in a[2].split(",") if it[0] == "d"] if a[2] != "-" else []
+        n = int(a[4])
+        want_p = "packets=" + (",".join("x" + d[:2 * n] for d in datas) or "-") + " err=eof"
+        try:
+            w, rest = impl.split(" ", 1)
+        except ValueError:
+            return None
+        chunks, err = py_decode(w[len("wire="):])
+        if chunks != datas or err != "eof":
+            return ("packets written through encapsulationPacketConn.WriteTo are not the chunks on the wire "
+                    "(%d written, wire decodes to %d chunks, %s)" % (len(datas), len(chunks), err))
+        if rest != want_p:
+            return "packets read through encapsulationPacketConn.ReadFrom are not the chunks of the stream (reader script %s, buffer %d)" % (a[3], n)
     elif op == "pad":
         n = int(a[2])
         if len(impl) != 2 * n:
@@ -125,7 +153,11 @@ def key_of(line, impl, model):
     a = line.split(" ")
     if a[1] == "dec" and "toolong" in (impl + model):
         return "prefix-length-limit"
-    if a[1] in ("rt", "dec"):
+    if a[1] in ("alloc", "allocd") and " over=" in impl and not impl.endswith(" over=0"):
+        return "alloc-exceeds-announced"
+    if a[1] == "pc":
+        return "packetconn"
+    if a[1] in ("rt", "dec", "alloc", "allocd"):
         sc = a[3]
         zero = any(x.rstrip("E") == "0" for x in sc.split(",")) if sc != "-" else False
         eofd = "E" in sc
@@ -153,6 +185,12 @@ def gen(ctx):
     # one big chunk at the upper limit, and one over the limit
     add("rt dg1048575.9 1,0,7E", "rt-big")
     add("enc dg1048576.1", "enc-toolong")
+    # allocation per ReadData call: honest chunks on the prefix-size boundaries and hostile announcements
+    for n in (0, 1, 63, 64, 8191, 8192, 70000, 300000, 1048575):
+        add("alloc dg%d.3 -" % n, "alloc-honest")
+        add("alloc p100,dg%d.5,p2000,dg%d.7 1,0,4096" % (n, n // 2), "alloc-honest")
+    for pre in ("ffff7f", "ffff7f00", "c07f", "c17f0000", "bf", "7fff7f", "ffffff7f"):
+        add("allocd x%s -" % pre, "alloc-hostile")
     # every fragmentation of short streams
     small = ["dx", "dx41", "dx4142", "p1,dx41", "p2,dx41", "dx41,dx42", "dx414243", "p0,dx41,p1"]
     for its in small:
@@ -180,6 +218,23 @@ def gen(ctx):
                 add("dec x%s%s %s" % (pre, body, rand_script(rng, 6)), "dec-nonminimal")
     for pre in ["c08080", "c0ffff00", "40808000", "ffffff", "c0808000"]:
         add("dec x%s -" % pre, "dec-toolong")
+    return lines, kinds
+
+
+def gen_pc(ctx):
+    """client/lib's encapsulationPacketConn: empty packets, boundary sizes, paddings in the stream, short buffers"""
+    rng = ctx.rng
+    lines, kinds = [], []
+    def add(l, k):
+        lines.append(AREA + " " + l); kinds.append(k)
+    for its in ("dx", "dx,dx", "dx41,dx,dx42", "dx,p3,dx,dx4142", "p0,dx41,p1", "dg63.1,dg64.2,dx,dg65.3", "dg8191.1,dg8192.2", "dg1500.7"):
+        for sc in ("-", "1", "1,0,1,0,2", "3E", "0,0,5"):
+            for n in (0, 1, 2, 64, 1500, 10000):
+                add("pc %s %s %d" % (its, sc, n), "pc-directed")
+    for i in range(150 if ctx.tier == "quick" else 1500):
+        its, _ = rand_items(rng, big=(i % 100 == 0))
+        add("pc %s %s %d" % (its, rand_script(rng), rng.choice([0, 1, 63, 64, 1200, 1500, 65536])), "pc-random")
+    add("pc dg1048576.1 - 10", "pc-toolong")
     return lines, kinds
 
 
@@ -214,19 +269,28 @@ def run(ctx):
                         "io.ReadFull / io.CopyN are modelled at Read-call granularity (coq/Model/Encap.v read_full)"]
     lines, kinds = gen(ctx)
     ctx.correspond(exe, lines, kinds, label="encapsulation", prop=prop, key_of=key_of)
+    os.environ["VERIF_DRIVER"] = "1"
+    pexe = vlib.go_test_build("./client/lib", name="c09_client_lib.test")
+    lines, kinds = gen_pc(ctx)
+    ctx.correspond(pexe, lines, kinds, label="client-packetconn", prop=prop, key_of=key_of, impl_args=PC_ARGS)
     e_lines, e_kinds, t_lines, t_kinds = truncations(ctx, exe)
     ctx.correspond(exe, e_lines + t_lines, e_kinds + t_kinds, label="encapsulation-truncation", prop=prop, key_of=key_of, crosscheck=20)
 
 
 def replay(ctx, doc):
     exe = vlib.go_build("./zz_verif/encap")
+    os.environ["VERIF_DRIVER"] = "1"
+    pexe = vlib.go_test_build("./client/lib", name="c09_client_lib.test")
     bad = 0
     for v in doc.get("violations", []):
         case = v["replay"].get("case")
         if not case:
             continue
         m = vlib.run_model([case])[0]
-        rc, r, err = vlib.run_impl(exe, [case])
+        if case.split(" ")[1] == "pc":
+            rc, r, err = vlib.run_impl(pexe, [case], args=PC_ARGS)
+        else:
+            rc, r, err = vlib.run_impl(exe, [case])
         r = r[0] if r else "!died"
         p = prop(case, r, m)
         print("case: %s\n model: %s\n impl:  %s\n property: %s" % (case[:300], m[:300], r[:300], p or "holds"))
